@@ -24,14 +24,14 @@ RULE = ('all 8x8x2x2 (server_max_window_bits, client_max_window_bits, '
         'messages; distinct = distinct (parameters, peer variant, message '
         'layout) signatures')
 SHRINK_LISTS = [('items',), ('items', '*', 'inner', '*'), ('sends',),
-                ('sends', '*', 'msgs'), ('cuts',)]
+                ('sends', '*', 'msgs'), ('cuts',), ('schedule', 'points')]
 EXPECTED_PROBES = ['takeover_backref_s2c', 'takeover_backref_c2s',
                    'fragmented_compressed', 'ctl_between_compressed_fragments',
                    'uncompressed_mixed', 'client_compress_false',
                    'empty_compressed', 'big_compressed', 'negative_rejected',
                    'rejected_bad_params', 'no_rsv1_without_negotiation',
                    'reconnect_negotiated', 'reconnect_not_negotiated',
-                   'two_objects_interleaved']
+                   'two_objects_interleaved', 'threaded_compressed_senders']
 
 MODES = ['normal'] * 12 + ['no_offer', 'server_omits', 'bad_params',
                            'negative', 'negative', 'unsolicited']
@@ -40,7 +40,8 @@ MODES = ['normal'] * 12 + ['no_offer', 'server_omits', 'bad_params',
 def plan(tier):
     return [('seeded', 8192 if tier == 'quick' else 160000),
             ('reconnect', 300 if tier == 'quick' else 12000),
-            ('pair', 500 if tier == 'quick' else 20000)]
+            ('pair', 500 if tier == 'quick' else 20000),
+            ('threaded', 1200 if tier == 'quick' else 60000)]
 
 
 def _msg_payload(rng, history, big_ok):
@@ -160,9 +161,54 @@ def _execute_reconnect(case):
     return res
 
 
+def _threaded_case(i, rng):
+    """Two or three threads sending compressed messages on one connection
+    (ThreadSim; the scenarios and the wire oracle are C11's): the peer's one
+    inflate context must restore every message in wire order."""
+    import copy
+    from . import C11
+    from . import _threads as T
+    bases = [k for k, b in enumerate(C11.BASES) if b.get('compress')]
+    b = bases[i % len(bases)]
+    case = copy.deepcopy(C11.BASES[b])
+    n, nt = C11._info(b)
+    r = rng.random()
+    if r < 0.5:
+        step = rng.randrange(1, n + 1)
+        ids = list(range(nt)) + [T.threadsim.CLOCK]
+        pts = [[step, rng.choice(ids)]]
+        if rng.random() < 0.5:
+            pts = [[1, 1]] + pts
+        if rng.random() < 0.4:
+            pts.append([rng.randrange(step + 1, n + 40), rng.choice(ids)])
+        case['schedule'] = {'kind': 'preempt', 'points': pts}
+    elif r < 0.8:
+        case['schedule'] = {'kind': 'random', 'seed': rng.getrandbits(32),
+                            'stay': rng.choice([0.5, 0.7, 0.85, 0.95])}
+    else:
+        case['schedule'] = {'kind': 'pct', 'seed': rng.getrandbits(32),
+                            'd': rng.choice([2, 3, 4]),
+                            'horizon': rng.choice([150, 400, 800])}
+    case['mode'] = 'threaded'
+    return case
+
+
+def _execute_threaded(case):
+    from . import C11
+    c = dict(case)
+    c.pop('mode')
+    r = C11.execute(c)
+    r.violations = [('C06/threaded/' + k.split('/', 1)[1], m)
+                    for k, m in r.violations]
+    r.stats['probe:threaded_compressed_senders'] += 1
+    return r
+
+
 def make_case(family, i, rng, tier):
     if family == 'reconnect':
         return _reconnect_case(rng)
+    if family == 'threaded':
+        return _threaded_case(i, rng)
     if family == 'pair':
         j = rng.randrange(256)
         a = make_case('seeded', j, rng, tier)
@@ -443,6 +489,8 @@ def build(case):
 def execute(case):
     if case.get('mode') == 'reconnect':
         return _execute_reconnect(case)
+    if case.get('mode') == 'threaded':
+        return _execute_threaded(case)
     if 'pair' in case:
         return _execute_pair(case)
     res = Result()
